@@ -3232,6 +3232,15 @@ func (n *RegisteredNexthop) len() int {
 	return 4 + net.IPv6len
 }
 
+// wireLen is len() plus the resolve-via-default (1 byte) and safi (2 bytes)
+// fields that frr8.2 added.
+func (n *RegisteredNexthop) wireLen(version uint8, software Software) int {
+	if version == 6 && software.name == "frr" && software.version >= 8.2 {
+		return n.len() + 3
+	}
+	return n.len()
+}
+
 // Ref: sendmsg_nexthop in bgpd/bgp_nht.c of Quagga1.2.x (ZAPI3)
 // Ref: sendmsg_zebra_rnh in bgpd/bgp_nht.c of FRR3.x (ZAPI4)
 // Ref: zclient_send_rnh in lib/zclient.c of FRR5&FRR6&FRR7.x&FRR8 (ZAPI5&6)
@@ -3245,20 +3254,24 @@ func (n *RegisteredNexthop) serialize(version uint8, software Software) ([]byte,
 	buf[0] = n.connected // stream_putc(s, (connected) ? 1 : 0);
 	pos := 1
 	if version == 6 && software.name == "frr" && software.version >= 8.2 {
-		buf[1] = n.resolveViaDef
-		binary.BigEndian.PutUint16(buf[1:3], uint16(SafiUnicast)) // stream_putw(s, PREFIX_FAMILY(p));
+		buf[1] = n.resolveViaDef // stream_putc(s, (resolve_via_def) ? 1 : 0);
+		safi := n.safi
+		if safi == 0 {
+			safi = uint16(SafiUnicast)
+		}
+		binary.BigEndian.PutUint16(buf[2:4], safi) // stream_putw(s, safi);
 		pos += 3
 	}
 	// Address Family (2 bytes)
 	binary.BigEndian.PutUint16(buf[pos:pos+2], n.Family) // stream_putw(s, PREFIX_FAMILY(p));
-	// pos += 2
+	pos += 2
 	// Prefix Length (1 byte)
 	addrByteLen, err := addressByteLength(uint8(n.Family))
 	if err != nil {
 		return nil, err
 	}
 
-	buf[3] = byte(addrByteLen * 8) // stream_putc(s, p->prefixlen);
+	buf[pos] = byte(addrByteLen * 8) // stream_putc(s, p->prefixlen);
 	// pos += 1
 	// Prefix (variable)
 	switch n.Family {
@@ -3353,7 +3366,7 @@ func (b *NexthopRegisterBody) decodeFromBytes(data []byte, version uint8, softwa
 		}
 		b.Nexthops = append(b.Nexthops, nh)
 
-		offset += nh.len()
+		offset += nh.wireLen(version, software)
 		if len(data) < offset {
 			break
 		}
